@@ -291,6 +291,14 @@ def install(P):
     P.default_of = default_of
     P.summaries["Default::default"] = lambda ctx, c: P.default_of(ctx, c.resolve(c.selfty or ""))
 
+    @P.summary("Map::is_empty", "Table::is_empty", "toml::map::Map::is_empty")
+    def _map_is_empty(ctx, c):
+        v = deref(c.args[0])
+        tv = v.data if isinstance(v, Opaque) and v.tag == "toml" else v
+        if not isinstance(tv, TVal) or tv.entries is None:
+            raise Unsupported("Map::is_empty on an opaque table")
+        return len(tv.present_entries(ctx)) == 0
+
     def visitor_ty(c):
         return norm_ty(c.gen)
 
